@@ -112,6 +112,29 @@ def run_target(t, timeout_ms=None):
                                             % (clause, repr(outcome)[:60], str(mv)[:200]), "reproduced": reproduced, "replay": rep, "solver": "z3", "answer": "sat"})
                 else:
                     res["undecided"].append({"obligation": "%s.%s" % (t.name, clause), "reason": "z3 unknown"})
+        # verification conditions of loops under contract (path condition already folded in)
+        for clause, goal in getattr(ex, "vcs", []):
+            res["obligations"] += 1
+            st, model = prove(State(), goal, timeout_ms=timeout_ms)
+            if st in ("proved", "proved-cvc5"):
+                res["discharged"] += 1
+                bk = "z3" if st == "proved" else "cvc5"
+                res["backends"][bk] = res["backends"].get(bk, 0) + 1
+            elif st == "refuted":
+                mv = {str(d): model_value(model, model[d]) for d in model.decls()} if model is not None else {}
+                rep = {"counter_model": mv, "goal": str(goal)[:600]}
+                reproduced = False
+                if t.replay is not None:
+                    try:
+                        r = t.replay(ctx, model, clause)
+                        rep["native_replay"] = r
+                        reproduced = bool(r.get("reproduced"))
+                    except Exception as e:
+                        rep["native_replay_error"] = "%s: %s" % (type(e).__name__, e)
+                res["failures"].append({"obligation": "%s.%s" % (t.name, clause), "what": "loop verification condition '%s' fails; counter-model %s" % (clause, str(mv)[:300]),
+                                        "reproduced": reproduced, "replay": rep, "solver": "z3", "answer": "sat"})
+            else:
+                res["undecided"].append({"obligation": "%s.%s" % (t.name, clause), "reason": "z3 unknown"})
         res["notes"].extend(sorted(set("havoc: " + h.split("$")[0] for h in ex.havocs_used)))
     except Unsupported as e:
         res["status"] = "outside-subset"
